@@ -10,7 +10,7 @@ git apply mutants/m${k}.diff || { echo "patch does not apply"; exit 2; }
 echo "== patched tests"; /venv/bin/python -m pytest -q -p no:cacheprovider 2>&1 | tail -1
 echo "== patched demo"; PYTHONPATH=$wt /venv/bin/python mutants/m${k}_demo.py 2>&1 | tail -2
 echo "== check $prop ($tier) on patched tree"
-cd /verif && VERIF_REPO=$wt ./check $prop --tier $tier 2>&1 | grep -E "VIOLATION|KNOWN|MACHINERY|key=|tier=" | head -12
+cd /verif && VERIF_OUT=/tmp/vout_$(basename $wt) VERIF_REPO=$wt ./check $prop --tier $tier 2>&1 | grep -E "VIOLATION|KNOWN|MACHINERY|key=|tier=" | head -12
 echo "check exit=${PIPESTATUS[0]}"
 cd "$wt" && git checkout -q -- .
 find "$wt" -name __pycache__ -type d -exec rm -rf {} + 2>/dev/null
